@@ -18,7 +18,11 @@ Two input families:
           `deliver type src dst k` fixes the arrival of the k-th such message (k = 0: of the first
           such message sent after the previous k = 0 step of that kind fired and not yet claimed);
           messages that no step names are lost (witnesses in corpus/C11, their mutations, and the
-          generated `diverge` scenarios: two leaders with conflicting uncommitted suffixes)
+          generated `diverge` scenarios: two leaders with conflicting uncommitted suffixes);
+          a `fence` step closes a block: messages sent before it cannot claim a step after it.
+          `reelect` scenarios (built from fenced blocks): the same node leads twice, its minority
+          followers' logs are rewritten by another leader in between, their replies are lost after
+          the re-election, a node without the new commands is elected by the rest
   stable  lat with no faults and tiny delays; the bounded-progress clause is judged as well
 """
 from __future__ import annotations
@@ -86,11 +90,13 @@ class C11(core.Property):
     search_budget = {"quick": 150, "thorough": 2000}
     rule = ("family lat: 3–5 RaftNodes, 1.2–3 s of simulated time, heartbeat 60–120 ms, election timeouts 150–400 ms drawn from the case, "
             "per-message latency from a menu 1–600 ms, 0–8 client commands (set/get/delete/cas on 3 keys) to the current leader or a fixed node, "
-            "0–2 crash/restart windows, 0–2 partitions, 0–6 lost messages; family script: step lists (corpus witnesses and their mutations); "
+            "0–2 crash/restart windows, 0–2 partitions, 0–6 lost messages; family script: step lists (corpus witnesses and their mutations, "
+            "diverge scenarios, reelect scenarios: one node leads twice with rewritten follower logs in between and selectively lost replies); "
+            "next_index/match_index of the event's target are compared after every step; "
             "family stable: no faults, latency ≤ 5 ms; non-trivial = some node became leader; distinct = distinct recorded schedule")
     trusted_base = [
         "hv/props/c11.py harness entities (latency lookup, recording state machine wrapping the real KVStateMachine, send/deliver log)",
-        "private attributes read for comparison only: RaftNode._voted_for, RaftNode._last_applied",
+        "private attributes read for comparison only: RaftNode._voted_for, RaftNode._last_applied, RaftNode._next_index, RaftNode._match_index (`x` lines; the judge ignores them)",
         "raft.random.uniform replaced by the case's draw list (the draws are inputs of the model's timeout action)",
         "the recorded delivery order is fed to the model: the engine's own ordering is C01's subject",
     ]
@@ -122,6 +128,9 @@ class C11(core.Property):
 
     # ------------------------------------------------------------------ generation
     def generate(self, rng: random.Random, i: int, tier: str) -> dict:
+        # quick tier: a case takes ~30 ms in-process, 400 of them ~12 s; on a loaded machine the fork
+        # pool is slower than that and its stalls show up as IMPL-TIMEOUT.  Thorough keeps the pool.
+        self.pool_workers = 1 if tier == "quick" else None
         k = i % 10
         if k == 9:
             return self.gen_stable(rng, tier)
@@ -129,6 +138,8 @@ class C11(core.Property):
             return self.gen_script(rng, tier)
         if k in (6, 7):
             return self.gen_diverge(rng, tier)
+        if k == 5:
+            return self.gen_reelect(rng, tier)
         return self.gen_lat(rng, tier)
 
     LAT_MENUS = [
@@ -313,6 +324,149 @@ class C11(core.Property):
         replicate(B, everyone[: rng.randrange(1, n)], 1)
         return {"family": "script", "n": n, "steps": steps, "gen": "diverge"}
 
+
+    # ---- scripted scenarios built from blocks (each block ends with a `fence`) ----
+    class _Plot:
+        """step-list builder: elections, client commands, replication rounds; every block is closed
+        by a fence, so what a block does not deliver is lost and never leaks into a later block"""
+
+        def __init__(self, rng, n, cid=1):
+            self.rng, self.n, self.steps, self.cid = rng, n, [], cid
+
+        def fence(self):
+            self.steps.append(["fence"])
+
+        def elect(self, c, voters, reach=(), ack=(), times=1):
+            """`c` times out; RequestVote reaches `voters`, whose answers come back; the first
+            AppendEntries of the new leader reaches `reach`; the replies of `ack` come back"""
+            for _ in range(times):
+                self.steps.append(["timeout", c])
+                for j in voters:
+                    self.steps.append(["deliver", "rv", c, j, 0])
+                for j in voters:
+                    self.steps.append(["deliver", "vr", j, c, 0])
+                for j in reach:
+                    self.steps.append(["deliver", "ae", c, j, 0])
+                for j in reach:
+                    if j in ack:
+                        self.steps.append(["deliver", "ar", j, c, 0])
+                self.fence()
+
+        def submits(self, c, k):
+            rng = self.rng
+            for _ in range(k):
+                self.steps.append(["submit", c, self.cid, rng.choice([0, 0, 1, 2, 3]), rng.randrange(3), rng.choice([0, 1, 2, 7]),
+                                   rng.choice([None, 1, 7])])
+                self.cid += 1
+
+        def replicate(self, c, targets, ack, rounds=1, retries=0):
+            """heartbeat of `c`: AppendEntries reaches `targets`, the replies of `ack` come back;
+            `retries` further request/reply exchanges (the walk-back after a failed consistency check)"""
+            for _ in range(rounds):
+                self.steps.append(["hb", c])
+                for j in targets:
+                    self.steps.append(["deliver", "ae", c, j, 0])
+                for j in targets:
+                    if j in ack:
+                        self.steps.append(["deliver", "ar", j, c, 0])
+                for _ in range(retries):
+                    for j in targets:
+                        if j in ack:
+                            self.steps.append(["deliver", "ae", c, j, 0])
+                            self.steps.append(["deliver", "ar", j, c, 0])
+                self.fence()
+
+    def gen_reelect(self, rng, tier):
+        """the same node leads twice.  Leader A (term t1) replicates commands to a minority that
+        acknowledges them; the rest of the cluster elects B (term t2) which commits other commands
+        and, once the cut heals, rewrites the logs of A and of its followers; A is elected again
+        (term t3) and the replies of its former followers are lost, while few others acknowledge
+        its new commands; then a node that does not hold them is elected by the remaining nodes.
+        Everything A remembered about its followers' progress in t1 is worthless in t3.
+        Sizes, identities, numbers of commands, who votes, which replies are lost all vary.
+        (Only n = 5 can realise the full shape: with 3 or 4 nodes the side that holds A's
+        unacknowledged commands is needed for every later majority, so they are never rewritten.)"""
+        n = rng.choice([5, 5, 5, 5, 5, 5, 4, 3])
+        q = n // 2 + 1
+        ids = list(range(n))
+        rng.shuffle(ids)
+        A, others = ids[0], ids[1:]
+        P = self._Plot(rng, n)
+        loose = rng.random() < 0.25  # looser variations of every choice
+
+        def some(xs, lo, hi):
+            xs = list(xs)
+            rng.shuffle(xs)
+            return xs[: max(0, min(len(xs), rng.randint(lo, hi)))]
+
+        if rng.random() < 0.3:  # somebody's lonely candidacy first: terms start off unequal
+            P.elect(rng.choice(ids), [], times=rng.choice([1, 2]))
+        # act 1: A leads, a minority follows
+        V1 = some(others, q - 1, n - 1)
+        reach = some(V1, 0, len(V1))
+        P.elect(A, V1, reach, some(reach, 0, len(reach)), times=rng.choice([1, 1, 2]))
+        k1 = rng.choice([1, 2, 3, 3, 4, 5, 6])
+        P.submits(A, k1)
+        minority = max(0, n - q - 1)  # followers A may have without reaching a majority
+        S1 = some(others, minority, minority) if not loose else some(others, 0, minority + 1)
+        if rng.random() < 0.3 and k1 > 1:  # in two batches
+            P.replicate(A, S1, S1, rounds=1)
+            P.submits(A, 1)
+            k1 += 1
+        P.replicate(A, S1, [j for j in S1 if rng.random() < 0.9], rounds=rng.choice([1, 1, 2]))
+        # act 2: the others elect B, which commits its own commands
+        rest = [j for j in others if j not in S1]
+        if not rest:
+            rest = others[:]
+        B, V2 = rest[0], rest[1:]
+        if rng.random() < 0.2:
+            V2 = V2 + S1  # they refuse (longer log)
+        P.elect(B, V2, V2, V2, times=rng.choice([2, 2, 3]))
+        k2 = rng.choice([0, 1, 1, 1, 2])
+        P.submits(B, k2)
+        P.replicate(B, V2, V2, rounds=rng.choice([2, 2, 1]), retries=1)
+        if rng.random() < 0.2 and len(V2) >= q - 1:  # a second leader on that side
+            B2 = V2[0]
+            V2b = [B] + V2[1:]
+            P.elect(B2, V2b, V2b, V2b, times=1)
+            kb = rng.choice([0, 1])
+            P.submits(B2, kb)
+            k2 += kb
+            P.replicate(B2, V2b, V2b, rounds=2, retries=1)
+            B = B2
+        # the cut heals: B's log replaces the others
+        everyone = [j for j in ids if j != B]
+        healed = everyone if not loose else some(everyone, n - 2, n - 1)
+        P.replicate(B, healed, healed, rounds=rng.choice([2, 2, 3]), retries=k1 + 1)
+        # act 3: A again; its old followers do not answer
+        pool = [j for j in others if j not in S1]
+        V3 = some(pool, q - 1, len(pool))
+        if rng.random() < 0.3:
+            V3 = V3 + S1  # they may vote, their later replies are lost all the same
+        reach = some(V3, 0, len(V3))
+        ack3 = [j for j in reach if j not in S1 or (loose and rng.random() < 0.3)]
+        P.elect(A, V3, reach, ack3, times=rng.choice([1, 1, 2]))
+        k3 = rng.choice([1, 2, 2, 3])
+        P.submits(A, k3)
+        R3 = some(pool, minority, minority) if not loose else some(pool, 0, minority + 1)
+        T3 = R3 + (S1 if rng.random() < 0.2 else [])
+        P.replicate(A, T3, R3, rounds=rng.choice([1, 2, 2]), retries=rng.choice([0, 1]))
+        # act 4: a node without A's new commands is elected by the rest
+        cand = [j for j in others if j not in R3] or others[:]
+        X = rng.choice(cand)
+        V4 = [j for j in cand if j != X]
+        if loose:
+            V4 = some([j for j in ids if j != X], q - 1, n - 1)
+        P.elect(X, V4, V4, V4, times=rng.choice([2, 2, 3]))
+        k4 = rng.choice([0, 1, 1, 2])
+        P.submits(X, k4)
+        P.replicate(X, V4, V4, rounds=2, retries=2)
+        # act 5: everybody hears X
+        allx = [j for j in ids if j != X]
+        P.replicate(X, allx, allx, rounds=2, retries=k1 + k3 + 2)
+        return {"family": "script", "n": n, "steps": P.steps, "gen": "reelect",
+                "plan": {"A": A, "S1": S1, "B": B, "R3": R3, "X": X, "k": [k1, k2, k3, k4], "loose": loose}}
+
     # ------------------------------------------------------------------ implementation
     def run_impl(self, case):
         lines = self._run(case)
@@ -373,6 +527,7 @@ class C11(core.Property):
                     else:
                         sel_at.setdefault((s[1], s[2], s[3], s[4]), k + 1)
             sel_cnt: dict = {}
+            fences = [k + 1 for k, s in enumerate(steps) if s[0] == "fence"]
         else:
             lats = case["lats"] or [1]
             slow = set(case.get("slow", []))
@@ -432,10 +587,13 @@ class C11(core.Property):
                     now_s = self.now.to_seconds()
                     if at is None:
                         # k = 0: the first later step of this kind that no message has claimed yet
+                        # a `fence` step closes a block: a message sent before it cannot claim a
+                        # step after it (it is lost), and steps nobody claimed before it stay idle
                         w = wild.get(key, [])
                         while w and w[0] <= now_s:
                             w.pop(0)
-                        if w:
+                        wall = next((f for f in fences if f > now_s), None)
+                        if w and (wall is None or w[0] < wall):
                             at = w.pop(0)
                     if at is None or at <= now_s:
                         plan_lost.add(mid)
@@ -490,8 +648,12 @@ class C11(core.Property):
             nd = nodes[i]
             vf = nd._voted_for
             ents = " ".join(f"{e.term}:{e.command['id']}" for e in nd.log.entries_after(0))
+            others = [nm for nm in names if nm != nd.name]
+            nx = " ".join(str(nd._next_index.get(nm, 1)) for nm in others)
+            mt = " ".join(str(nd._match_index.get(nm, 0)) for nm in others)
             return (f"s {i} {ROLE[nd.state]} {nd.current_term} {'-' if vf is None else idx[vf]} "
-                    f"{nd.log.commit_index} {nd._last_applied} L" + (" " + ents if ents else ""))
+                    f"{nd.log.commit_index} {nd._last_applied} L" + (" " + ents if ents else "")
+                    + f"\nx {i} N {nx} M {mt}")
 
         last = [view(i) for i in range(n)]
 
@@ -500,7 +662,7 @@ class C11(core.Property):
             for i in range(n):
                 v = view(i)
                 if i == target or v != last[i]:
-                    out.append(v)
+                    out.extend(v.split("\n"))
                     last[i] = v
             out.extend(st["apps"])
             st["apps"] = []
@@ -639,6 +801,7 @@ class C11(core.Property):
             while step >= 1:
                 for i in range(0, n, step):
                     cand = dict(case)
+                    cand.pop("plan", None)  # the plan describes the generated step list only
                     cand["steps"] = xs[:i] + xs[i + step:]
                     if len(cand["steps"]) < n:
                         yield cand
@@ -659,9 +822,112 @@ class C11(core.Property):
             cand["lats"] = case["lats"][: len(case["lats"]) // 2]
             yield cand
 
+
+    def _mutate_blocks(self, steps, n, rng):
+        """mutations at the level of a scenario: towards a node that leads twice with a rewritten log
+        in between and selectively lost replies — drop one follower's replies in a stretch, repeat an
+        earlier election later on, append a further act (a former leader stands again, takes
+        commands, reaches few; somebody else is elected by the rest), remove or swap whole blocks"""
+        blocks, cur = [], []
+        for s in steps:
+            cur.append(s)
+            if s[0] == "fence":
+                blocks.append(cur)
+                cur = []
+        if cur:
+            blocks.append(cur + [["fence"]])
+        q = n // 2 + 1
+        cid = 1 + max([s[2] for s in steps if s[0] == "submit"] + [0])
+        stood = [s[1] for s in steps if s[0] == "timeout"]  # candidates so far, former leaders among them
+        for _ in range(rng.randint(1, 3)):
+            k = rng.random()
+            if k < 0.25 and blocks:
+                # one follower's replies to one node are lost from some block on
+                i = rng.randrange(len(blocks))
+                ars = sorted({(s[2], s[3]) for b in blocks[i:] for s in b if s[0] == "deliver" and s[1] == "ar"})
+                if ars:
+                    a, b_ = rng.choice(ars)
+                    for j in range(i, len(blocks)):
+                        blocks[j] = [s for s in blocks[j] if not (s[0] == "deliver" and s[1] == "ar" and s[2] == a and s[3] == b_)]
+            elif k < 0.4 and blocks:
+                # an earlier election happens again later
+                el = [b for b in blocks if b[0][0] == "timeout"]
+                if el:
+                    blocks.insert(rng.randrange(len(blocks) + 1), json.loads(json.dumps(rng.choice(el))))
+            elif k < 0.5 and len(blocks) > 1:
+                del blocks[rng.randrange(len(blocks))]
+            elif k < 0.6 and len(blocks) > 1:
+                i, j = rng.randrange(len(blocks)), rng.randrange(len(blocks))
+                blocks[i], blocks[j] = blocks[j], blocks[i]
+            elif k < 0.7 and blocks:
+                # more (or fewer) commands for somebody who already got some
+                subs = [(i, j) for i, b in enumerate(blocks) for j, s in enumerate(b) if s[0] == "submit"]
+                if subs:
+                    i, j = rng.choice(subs)
+                    if rng.random() < 0.7:
+                        blocks[i].insert(j, ["submit", blocks[i][j][1], cid, rng.choice([0, 0, 1, 2, 3]), rng.randrange(3),
+                                             rng.choice([0, 1, 2, 7]), rng.choice([None, 1, 7])])
+                        cid += 1
+                    else:
+                        del blocks[i][j]
+            else:
+                # a further act
+                P = self._Plot(rng, n, cid)
+                ids = list(range(n))
+                c = rng.choice(stood) if stood and rng.random() < 0.7 else rng.randrange(n)
+                others = [j for j in ids if j != c]
+                rng.shuffle(others)
+                flat = [s for b in blocks for s in b]
+                old = sorted({s[2] for s in flat if s[0] == "deliver" and s[1] == "ar" and s[3] == c})
+                if old and rng.random() < 0.6:
+                    # `c` stood before and `old` answered it then: this time they stay silent, few
+                    # others acknowledge the new commands, and the rest elects somebody else
+                    pool = [j for j in others if j not in old]
+                    V = (pool + old)[: max(q - 1, len(pool))]
+                    reach = [j for j in V if j in pool]
+                    P.elect(c, V, reach, reach, times=rng.choice([1, 2]))
+                    P.submits(c, rng.choice([1, 1, 2]))
+                    few = pool[: max(1, min(q - 2, n - q - 1))]
+                    P.replicate(c, few, few, rounds=rng.choice([1, 2]))
+                else:
+                    V = others[: rng.randint(q - 1, n - 1)]
+                    reach = [j for j in V if rng.random() < 0.5]
+                    P.elect(c, V, reach, [j for j in reach if rng.random() < 0.5], times=rng.choice([1, 2]))
+                    P.submits(c, rng.choice([1, 2, 3]))
+                    few = others[: rng.randint(0, max(1, n - q))]
+                    P.replicate(c, few, [j for j in few if rng.random() < 0.8], rounds=rng.choice([1, 2]), retries=rng.choice([0, 2]))
+                if rng.random() < 0.8:
+                    rest = [j for j in others if j not in few] or others
+                    x = rng.choice(rest)
+                    V2 = [j for j in rest if j != x]
+                    if rng.random() < 0.2:
+                        V2 = [j for j in ids if j != x][: rng.randint(q - 1, n - 1)]
+                    P.elect(x, V2, V2, V2, times=2)
+                    P.submits(x, rng.choice([0, 1, 1, 2]))
+                    P.replicate(x, V2, V2, rounds=2, retries=2)
+                    if rng.random() < 0.5:
+                        allx = [j for j in ids if j != x]
+                        P.replicate(x, allx, allx, rounds=2, retries=6)
+                    stood.append(x)
+                stood.append(c)
+                cid = P.cid
+                at = len(blocks) if rng.random() < 0.7 else rng.randrange(len(blocks) + 1)
+                new, cur = [], []
+                for s in P.steps:
+                    cur.append(s)
+                    if s[0] == "fence":
+                        new.append(cur)
+                        cur = []
+                blocks[at:at] = new
+        return [s for b in blocks for s in b]
+
     def mutate(self, case, rng):
         c = json.loads(json.dumps(case))
         if c["family"] == "script":
+            c.pop("plan", None)
+            if rng.random() < 0.6:
+                c["steps"] = self._mutate_blocks(c["steps"], c["n"], rng)
+                return c
             xs = c["steps"]
             for _ in range(rng.randint(1, 3)):
                 if not xs:
@@ -707,6 +973,8 @@ THEOREMS: list[str] = [
     "HappyModel.C11.commit_monotone",
     "HappyModel.C11.committed_never_truncated",
     "HappyModel.C11.clen_reachable",
+    "HappyModel.C11.step_new_leader_fresh",
+    "HappyModel.C11.new_leader_progress_reset",
     # earlier per-step / conditional forms, now lemmas of the four theorems above
     "HappyModel.C11.commit_monotone_partial",
     "HappyModel.C11.state_machine_safety_partial",
